@@ -831,7 +831,9 @@ c_rule_loadpX (OrcCompiler *p, void *user, OrcInstruction *insn)
       }
     }
   } else if (p->vars[insn->src_args[0]].vartype == ORC_VAR_TYPE_CONST) {
-    if (p->vars[insn->src_args[0]].size <= 4) {
+    /* by the width of the operation, not of the declaration: a narrower
+     * constant given to a 64-bit operation keeps its sign */
+    if (size <= 4) {
       ORC_ASM_CODE(p,"    %s = 0x%08x; /* %d or %gf */\n", dest,
           (unsigned int)p->vars[insn->src_args[0]].value.i,
           (int)p->vars[insn->src_args[0]].value.i,
